@@ -26,10 +26,23 @@ RULE = ("state types positive/complex/mixed, nv 1..4 in both tiers (quick: fewer
         "single-row batches (pairing = cyclic shift by one, direction detected from the output); additionally every region in the further encodings plain indexing accepts "
         "(boolean masks, negative / unsorted / repeated indices, tuples, ranges, int32 arrays, numpy scalars, 0-dim tensors, slices) on the "
         "all-pairs batch, non-contiguous (strided) double sample tensors, one random batch of ~2500 rows per region for n <= 3 and one batch of 20001..26000 rows (odd) per state type; "
+        "strongly polarised / shifted PURE states (visible or hidden biases summing to 400..640, |effective energy| up to ~650: |psi|^2 up to e^650 is still "
+        "a double) - fixed ones first, then one per size and pure type from the seed; an object-history block (fixed first, then from the seed): ONE SWAP object "
+        "per from-the-end / plain encoding applied to states of sizes 3, 4, 3 (and random sizes) of rotating state types, the region object re-used for a "
+        "second observable, the tensor returned by one apply kept while the observable is applied to another batch of the same length, and "
+        "statistics_from_samples of the same batch (num_samples == rows, mean == mean of the per-row values); "
         "a case is (state, region, "
         "encoding); non-trivial := all biases non-zero, 0 < |A| < n or n = 1, and (positive or non-zero phase network)")
 ASSUMPTIONS = ["torch elementwise kernels / advanced indexing implement their documented semantics",
-               "states with |effective energy| > 300 are skipped (double overflow), counted as skipped_overflow"]
+               "mixed states with |effective energy| > 300 are skipped (the implementation's own probability^2 leaves the doubles at ~355); pure states are "
+               "exercised up to |effective energy| ~ 650 (cut: |E| <= 690 and max E - min E <= 690, beyond which |psi|^2 / the weights themselves leave "
+               "the doubles); skipped draws are counted as skipped_overflow",
+               "OUT of scope (red team 2, C09_4): an observable is immutable after construction - re-assigning the attribute `O.A` of a live SWAP object "
+               "(an attribute the documentation does not mention; only the constructor argument A is documented) is not exercised, so an implementation "
+               "that prepares its indexing object once in __init__ is accepted",
+               "whether apply leaves the caller's REGION object untouched is only counted (histogram 'region object changed by apply'); the property names the "
+               "batch only.  What is required is the consequence: the same observable / the same region object used again (other system size) must still "
+               "measure the region the encoding denotes there"]
 
 
 def purity_np(rho_n, n, A):
@@ -167,7 +180,56 @@ def model_long_batch(m, margs, A, rows_np, d):
     return m.call("swap_apply", *margs, A, rows_np)
 
 
-def check_state(ctx, kind, nv, nh, na, params, with_model=True, only_region=None, all_forms=None, very_long=False):
+def energies_ok(kind, params, sp):
+    """Mixed states: the cut of the shared helper (|E| <= 300).  Pure states: |psi|^2 = e^-E, the partition function and
+    the two importance weights exp((E - E')/2) are doubles as long as |E| and the spread of E stay below ~700."""
+    if kind == "mixed":
+        return base.energies_ok(kind, params, sp)
+    A = [np.asarray(x, dtype=float) for x in params["am"]]
+    E = gen.np_eff_energy(*A, sp)
+    if not np.all(np.isfinite(E)) or np.max(np.abs(E)) > 690 or float(E.max() - E.min()) > 690:
+        return False
+    if kind != "positive":
+        P = [np.asarray(x, dtype=float) for x in params["ph"]]
+        if max(float(np.max(np.abs(x))) if x.size else 0.0 for x in P) > 1e3:
+            return False
+    return True
+
+
+def draw_huge(ctx, kind, nv, nh, variant=None):
+    """A strongly polarised / shifted PURE state whose |effective energy| reaches 400..650 (|psi|^2 up to e^650: a double):
+    variant 'visible': 1..3 visible biases (random signs) whose magnitudes sum to T in [400, 640];
+    variant 'hidden':  1..2 positive hidden biases summing to T (softplus is linear there: every energy is shifted by -T, the
+                       remaining hidden units keep the state entangled).  All other parameters N(0,1)."""
+    rng = ctx.rng
+    if variant is None:
+        variant = "visible" if rng.random() < 0.5 else "hidden"
+    for attempt in range(6):
+        W = rng.normal(size=(nh, nv)); b = rng.normal(size=nv); c = rng.normal(size=nh)
+        T = float(rng.uniform(400.0, 640.0)) * (0.9 ** attempt)
+        if variant == "visible":
+            k = int(rng.integers(1, min(nv, 3) + 1))
+            sites = rng.choice(nv, size=k, replace=False)
+            share = rng.uniform(0.5, 1.0, size=k); share = share / share.sum()
+            b[sites] = T * share * rng.choice([-1.0, 1.0], size=k)
+        else:
+            k = int(rng.integers(1, min(nh, 2) + 1))
+            units = rng.choice(nh, size=k, replace=False)
+            share = rng.uniform(0.5, 1.0, size=k); share = share / share.sum()
+            c[units] = T * share
+        params = {"am": gen.plist(W, b, c)}
+        if kind == "complex":
+            params["ph"] = gen.plist(*gen.brbm_params(ctx, nv, nh))
+        sp = gen.all_states(nv)
+        E = gen.np_eff_energy(W, b, c, sp)
+        if energies_ok(kind, params, sp) and np.max(np.abs(E)) >= 360:
+            ctx.count("param_regime:huge_pure_" + variant)
+            return params
+    ctx.count("huge_pure_draw_failed")
+    return None
+
+
+def check_state(ctx, kind, nv, nh, na, params, with_model=True, only_region=None, all_forms=None, very_long=False, regions=None):
     import torch
     from qucumber.observables import SWAP
     from qucumber.observables.entanglement import swap
@@ -175,7 +237,7 @@ def check_state(ctx, kind, nv, nh, na, params, with_model=True, only_region=None
     s = base.build(kind, nv, nh, na, params)
     n = nv
     space, sp = independent_space(ctx, s, n, case0)
-    if not base.energies_ok(kind, params, sp):
+    if not energies_ok(kind, params, sp):
         ctx.count("skipped_overflow")
         return
     sm = base.state_matrices(ctx, s, kind, space, case0)
@@ -204,13 +266,16 @@ def check_state(ctx, kind, nv, nh, na, params, with_model=True, only_region=None
     for A in subsets:
         if only_region is not None and A != only_region:
             continue
+        if regions is not None and A not in regions:
+            continue
         want = purity_np(rho_n, n, A)
         mask = np.zeros(n, dtype=bool); mask[A] = True
         # magnitude of the complex product whose real part is returned: normalises comparisons
         def mag(i, j):
             a, b = sp[i].copy(), sp[j].copy()
             a[mask], b[mask] = sp[j][mask], sp[i][mask]
-            return max(1e-300, abs(rho[idx(a), i]) * abs(rho[idx(b), j]) / (abs(rho[i, i]) * abs(rho[j, j])))
+            # (ratio per replica first: the plain product of two matrix elements can leave the doubles for |E| ~ 600)
+            return max(1e-300, (abs(rho[idx(a), i]) / abs(rho[i, i])) * (abs(rho[idx(b), j]) / abs(rho[j, j])))
         M = np.array([[mag(i, j) for j in range(N)] for i in range(N)])
         Vm = None
         if m is not None:           # model values for every ordered pair (model pairing: row i with row i-1)
@@ -334,8 +399,220 @@ def check_state(ctx, kind, nv, nh, na, params, with_model=True, only_region=None
             ctx.require("SWAP: every encoding of the region gives the same values", max(vals) - min(vals) <= 1e-9 * max(1.0, abs(vals[0])),
                         dict(case0, region=A), {"values": vals})
 
+# --------------------------------------------------------------------------- history on ONE observable object
+def make_enc(form, idx):
+    """region object of a serialisable spec (form, indices)"""
+    import torch
+    idx = list(idx)
+    if form == "list":
+        return list(idx)
+    if form == "tuple":
+        return tuple(idx)
+    if form == "tensor":
+        return torch.tensor(idx, dtype=torch.long)
+    if form == "int32 tensor":
+        return torch.tensor(idx, dtype=torch.int32)
+    if form == "ndarray":
+        return np.array(idx, dtype=np.int64)
+    if form == "int":
+        return int(idx[0])
+    if form == "0-dim tensor":
+        return torch.tensor(int(idx[0]))
+    raise ValueError(form)
+
+
+def enc_snapshot(enc):
+    import torch
+    if isinstance(enc, torch.Tensor):
+        return enc.clone()
+    if isinstance(enc, np.ndarray):
+        return enc.copy()
+    if isinstance(enc, list):
+        return list(enc)
+    return enc
+
+
+def enc_same(a, b):
+    import torch
+    if isinstance(a, torch.Tensor):
+        return isinstance(b, torch.Tensor) and a.shape == b.shape and a.dtype == b.dtype and bool(torch.equal(a, b))
+    if isinstance(a, np.ndarray):
+        return isinstance(b, np.ndarray) and a.shape == b.shape and bool(np.array_equal(a, b))
+    return type(a) is type(b) and a == b
+
+
+def denoted(idx, n):
+    """the set of sites numpy indexing selects on a chain of n sites"""
+    return sorted(set(np.atleast_1d(np.arange(n)[np.array(idx, dtype=np.int64)]).tolist()))
+
+
+def draw_plain(ctx, kind, nv, nh, na):
+    """all parameters N(0,1) (generic entangled state: the purities of different regions differ)"""
+    rng = ctx.rng
+    g = lambda *sh: rng.normal(size=sh)
+    if kind == "mixed":
+        return {"am": gen.plist(g(nh, nv), g(na, nv), g(nv), g(nh), g(na)), "ph": gen.plist(g(nh, nv), g(na, nv), g(nv), g(nh), np.zeros(na))}
+    out = {"am": gen.plist(g(nh, nv), g(nv), g(nh))}
+    if kind == "complex":
+        out["ph"] = gen.plist(g(nh, nv), g(nv), g(nh))
+    return out
+
+
+FIXED_HISTORY = {"sizes": [3, 4, 3], "kinds": ["complex", "mixed", "positive"],
+                 "encodings": [["tensor", [-1]], ["list", [-1]], ["tensor", [-1, -3]], ["ndarray", [0, -1]], ["int", [-2]], ["ndarray", [-2]],
+                               ["0-dim tensor", [-1]], ["int32 tensor", [-3, -1]], ["tuple", [-2, -1]], ["list", [0, 2]], ["tensor", [1, 2]]]}
+
+
+def random_history_spec(ctx):
+    rng = ctx.rng
+    sizes = [[3, 4, 3], [4, 3, 4], [2, 4, 3], [4, 2, 3], [2, 3, 4], [3, 4, 2]][int(rng.integers(6))]
+    kinds = [str(k) for k in rng.choice(["positive", "complex", "mixed"], size=len(sizes))]
+    m = min(sizes)
+    encs = []
+    for form in rng.permutation(["tensor", "list", "ndarray", "int32 tensor", "tuple", "int", "0-dim tensor"])[:(7 if ctx.thorough else 4)]:
+        form = str(form)
+        if form in ("int", "0-dim tensor"):
+            idx = [-int(rng.integers(1, m + 1))]
+        else:
+            k = int(rng.integers(1, m + 1))
+            idx = (-(rng.choice(m, size=k, replace=False) + 1)).tolist()
+            if rng.random() < 0.4:                 # mixed signs: one entry counted from the front
+                idx[int(rng.integers(k))] = int(rng.integers(0, m))
+        encs.append([form, idx])
+    return {"sizes": sizes, "kinds": kinds, "encodings": encs}
+
+
+def object_history(ctx, spec, params_list=None, only_encoding=None):
+    """ONE SWAP object (and ONE region object) used on states of several system sizes, one after the other: each time the
+    estimator must be the purity of the region the encoding denotes for THAT size (numpy indexing on arange(n)); then a second
+    observable is built from the same region object.  On the way: the tensor returned by one apply is kept while the observable is
+    applied to another batch of the same length (must not change), and statistics_from_samples of the same batch must average
+    exactly the per-row values (num_samples == rows: every row once in each replica role).  w^T V w does not depend on the
+    direction of the cyclic pairing (V -> V^T), so the all-ordered-pairs batch is enough."""
+    import torch
+    from qucumber.observables import SWAP
+    sizes, kinds = list(spec["sizes"]), list(spec["kinds"])
+    bundles = []
+    for k, (nv, kind) in enumerate(zip(sizes, kinds)):
+        if params_list is not None:
+            nh, na, params = params_list[k]
+        else:
+            nh = int(ctx.rng.integers(1, nv + 2))
+            na = int(ctx.rng.integers(1, nv + 2)) if kind == "mixed" else 0
+            params = draw_plain(ctx, kind, nv, nh, na)
+        case0 = {"state": kind, "nv": nv, "nh": nh, "na": na, "params": params}
+        s = base.build(kind, nv, nh, na, params)
+        space, sp = independent_space(ctx, s, nv, case0)
+        sm = base.state_matrices(ctx, s, kind, space, case0)
+        if sm is None:
+            return
+        rho, p = sm
+        eul = euler_rows(len(sp))
+        bundles.append({"kind": kind, "nv": nv, "nh": nh, "na": na, "params": params, "s": s, "space": space, "rho_n": rho / np.trace(rho),
+                        "w": p / float(p.sum()), "eul": eul, "big": space[torch.tensor(eul, dtype=torch.long)].clone()})
+    plist = [[b["nh"], b["na"], b["params"]] for b in bundles]
+    for form, idx in spec["encodings"]:
+        if only_encoding is not None and [form, list(idx)] != only_encoding:
+            continue
+        enc = make_enc(form, idx)
+        snap = enc_snapshot(enc)
+        O = SWAP(enc)
+        # steps: the same observable on every state in turn, then a NEW observable from the same region object on a state whose
+        # size differs from the last one used
+        other = next((b for b in bundles if b["nv"] != bundles[-1]["nv"]), bundles[0])
+        steps = [("same observable", O, b) for b in bundles] + [("new observable from the same region object", None, other)]
+        seen = []
+        for label, obs, b in steps:
+            n, kind, s = b["nv"], b["kind"], b["s"]
+            if obs is None:
+                ok, obs = ctx.call("SWAP(region object used before)", {"history_spec": spec, "encoding": [form, idx]}, lambda: SWAP(enc))
+                if not ok:
+                    continue
+            A = denoted(idx, n)
+            seen.append(n)
+            case = {"state": kind, "nv": n, "nh": b["nh"], "na": b["na"], "params": b["params"], "region": A, "encoding": "%s %r" % (form, idx),
+                    "history": "%s; sizes so far %r" % (label, seen), "history_spec": {"sizes": sizes, "kinds": kinds, "encodings": [[form, list(idx)]]},
+                    "history_params": plist}
+            ctx.case({"history": label, "sizes": list(seen), "state": kind, "encoding": [form, list(idx)], "am0": b["params"]["am"][0][0][0]},
+                     nontrivial=0 < len(A) < n)
+            ctx.count("history:" + label); ctx.count("history encoding:" + form)
+            b1 = b["big"].clone(); before = b1.clone()
+            ok, o1 = ctx.call("SWAP.apply (one observable, several system sizes)", case, lambda: obs.apply(s, b1))
+            if not ok:
+                continue
+            ctx.require("SWAP: batch unchanged by apply", bool(torch.equal(b1, before)), case)
+            good = isinstance(o1, torch.Tensor) and tuple(o1.shape) == (len(b1),) and not torch.is_complex(o1)
+            ctx.require("SWAP: one real number per row", bool(good), case, {"shape": list(getattr(o1, "shape", []))})
+            if not good:
+                continue
+            if not enc_same(snap, enc):
+                ctx.count("region object changed by apply (not required by the property; its consequences are)")
+            keep = o1.detach().clone()
+            vals = keep.numpy().astype(float)
+            eul, N = b["eul"], len(b["w"])
+            V = np.zeros((N, N))
+            for i in range(len(eul)):
+                V[eul[i], eul[i - 1]] = vals[i]
+            got, want = float(b["w"] @ V @ b["w"]), purity_np(b["rho_n"], n, A)
+            ctx.require("SWAP: sum p(s1)p(s2)/Z^2 value(s1,s2) == tr(rho_A^2)", abs(got - want) <= 1e-8 + 1e-7 * abs(want), case,
+                        {"estimator_mean": got, "purity": want, "region_denoted_for_this_size": A, "region_object_now": repr(enc)[:60]})
+            ctx.traces += 1
+            # ---- the same batch through the public statistics path
+            ok, st = ctx.call("SWAP.statistics_from_samples", case, lambda: obs.statistics_from_samples(s, b1))
+            if ok:
+                fine = isinstance(st, dict) and st.get("num_samples") == len(b1) and \
+                    abs(float(st.get("mean", np.nan)) - float(vals.mean())) <= 1e-9 * max(1.0, float(np.max(np.abs(vals))))
+                ctx.require("SWAP: statistics_from_samples averages the per-row values of apply (every row once in each replica role)", bool(fine), case,
+                            {"statistics": repr(st)[:200], "rows": len(b1), "mean of apply": float(vals.mean())})
+            # ---- another batch of the same length on the same observable: the values handed out before stay what they were
+            perm = ctx.rng.permutation(len(b1))
+            b2 = b1[torch.tensor(perm, dtype=torch.long)].clone()
+            ok, o2 = ctx.call("SWAP.apply (second batch of the same length)", case, lambda: obs.apply(s, b2))
+            if ok:
+                ctx.require("SWAP: the values returned by an earlier apply are not altered by a later apply of the same observable",
+                            bool(torch.equal(o1.detach(), keep)), case, {"first values then": vals[:4].tolist(), "now": o1.detach().numpy()[:4].tolist()})
+
+
+def sample_regions(ctx, n, k):
+    """k random regions of an n-site chain (at least one proper non-empty one)"""
+    subsets = [list(c) for r in range(n + 1) for c in itertools.combinations(range(n), r)]
+    if k >= len(subsets):
+        return None
+    proper = [A for A in subsets if 0 < len(A) < n]
+    pick = [proper[int(ctx.rng.integers(len(proper)))]] if proper else []
+    while len(pick) < k:
+        A = subsets[int(ctx.rng.integers(len(subsets)))]
+        if A not in pick:
+            pick.append(A)
+    return pick
+
+
+def huge_pure(ctx, kind, nv, variant=None, n_regions=None):
+    nh = int(ctx.rng.integers(1, nv + 2))
+    params = draw_huge(ctx, kind, nv, nh, variant)
+    if params is None:
+        return
+    ctx.torch_seed()
+    check_state(ctx, kind, nv, nh, 0, params, regions=(sample_regions(ctx, nv, n_regions) if n_regions else None))
+
+
+def fixed_first(ctx):
+    """A block that does not depend on VERIF_SEED and always runs first: the object-history block and four strongly
+    polarised / shifted pure states."""
+    saved = ctx.rng
+    ctx.rng = np.random.Generator(np.random.PCG64(20261002))
+    try:
+        object_history(ctx, FIXED_HISTORY)
+        huge_pure(ctx, "positive", 3, "visible", n_regions=4)
+        huge_pure(ctx, "complex", 2, "hidden")
+        huge_pure(ctx, "complex", 3, "visible", n_regions=4)
+        huge_pure(ctx, "positive", 2, "hidden")
+    finally:
+        ctx.rng = saved
+
 
 def run(ctx):
+    fixed_first(ctx)
     # sizes 1..4 in both tiers (the property's range); the quick tier uses fewer draws and, for nv >= 3, one
     # randomly chosen encoding per region (plus int for single sites) instead of all of them
     plan = {1: 5, 2: 5, 3: 4, 4: 2} if ctx.thorough else {1: 3, 2: 3, 3: 2, 4: 1}
@@ -348,6 +625,13 @@ def run(ctx):
                 # one batch of > 20000 rows per state type (first state with nv in (2, 3), first non-empty region)
                 check_state(ctx, kind, nv, nh, na, base.draw(ctx, kind, nv, nh, na),
                             very_long=(nv in (2, 3) and kind not in base.very_long_done(ctx)))
+    # (after the main stream, so that its draws for a given seed are what they were before these blocks existed)
+    for _ in range(3 if ctx.thorough else 1):
+        object_history(ctx, random_history_spec(ctx))
+    # one strongly polarised / shifted pure state per size and pure type (quick: a sample of the regions for nv >= 3)
+    for nv in (1, 2, 3, 4):
+        for kind in ("complex", "positive"):
+            huge_pure(ctx, kind, nv, n_regions=(None if ctx.thorough or nv <= 2 else 3))
     # roll pairing of the model vs torch.roll on bit rows (exact)
     import torch
     m = ctx.get_model()
@@ -377,6 +661,12 @@ def replay(ctx, rec):
     if "params" not in case:
         print("replay: no stored case; re-running the generated cases")
         return run(ctx)
+    if case.get("history_spec"):
+        print("replay of the object history", case["history_spec"])
+        object_history(ctx, case["history_spec"], params_list=case.get("history_params"))
+        for f in ctx.failures[:5]:
+            print("  fails:", f["what"], f["detail"][:200])
+        return
     print("replay of", case.get("state"), "nv", case.get("nv"), "region", case.get("region"), "encoding", case.get("encoding"))
     check_state(ctx, case["state"], case["nv"], case["nh"], case.get("na", 0), case["params"], only_region=case.get("region"), very_long=True)
     for f in ctx.failures[:5]:
